@@ -207,6 +207,69 @@ let c04_chk t =
         | x -> failwith ("bad need " ^ x)))) in
   "ok=" ^ sb (check_needs us other out vmax qmax)
 
+(* ---------- C18 ---------- *)
+let parse_mops t =
+  let n = ti t in
+  tlist t n (fun t -> match tok t with
+    | "U" -> let i = tz t in let a = tz t in let ts = tz t in let c = tz t in
+      Up { a_id = i; a_addr = a; a_ts = ts; a_cluster = c }
+    | "D" -> let i = tz t in let a = tz t in let ts = tz t in let c = tz t in
+      Down { a_id = i; a_addr = a; a_ts = ts; a_cluster = c }
+    | "R" -> let a = tz t in let ms = tz t in Rtt (a, ms)
+    | x -> failwith ("bad mop " ^ x))
+let fmt_members (m : members) =
+  let st = join "," (fun (id, s) -> sz id ^ "@" ^ sz s.m_addr ^ ":" ^ sz s.m_ts ^ ":" ^ sz s.m_cluster ^ ":" ^
+                                    (match s.m_ring with None -> "-" | Some r -> sz r)) m.states in
+  let ba = join "," (fun (a, id) -> sz a ^ ">" ^ sz id) m.by_addr in
+  let r0 c = String.concat "," (List.map string_of_int (List.sort compare (List.map int_of_z (ring0 m (z_of_small c))))) in
+  "st=" ^ st ^ " ba=" ^ ba ^ " r0=" ^ r0 0 ^ "|" ^ r0 1
+let c18_members t =
+  let ops = parse_mops t in
+  let m = ref members_empty in
+  join " # " (fun op ->
+      let res = (match op with
+          | Up a -> let (m', r) = add_member !m a in m := m';
+            (match r with NewMember -> "new" | Updated -> "upd" | Ignored -> "ign")
+          | Down a -> let (m', r) = remove_member !m a in m := m'; if r then "rm1" else "rm0"
+          | Rtt _ -> m := mstep !m op; "rtt") in
+      res ^ " " ^ fmt_members !m) ops
+(* oracle: chk_members <ops> <nsteps> { K{id addr ts cluster ring(-1=none)} B{addr id} R0{addr} R1{addr} }
+   wf: history allowed by the SWIM constraint; ok: every observed view matches the
+   newest-identity fold, by_addr points to present members at that address, and
+   ring0(c) is exactly the same-cluster ring-0 members *)
+let c18_chk t =
+  let ops = parse_mops t in
+  let n = ti t in
+  let views = tlist t n (fun t ->
+      let k = ti t in
+      let st = tlist t k (fun t -> let i = tz t in let a = tz t in let ts = tz t in let c = tz t in
+                           let r = tok t in
+                           (i, { m_addr = a; m_ts = ts; m_cluster = c;
+                                 m_ring = (if r = "-1" then None else Some (z_of_string r)) })) in
+      let nb = ti t in
+      let ba = tlist t nb (fun t -> let a = tz t in let i = tz t in (a, i)) in
+      let n0 = ti t in let r0 = tlist t n0 tz in
+      let n1 = ti t in let r1 = tlist t n1 tz in
+      (st, ba, r0, r1)) in
+  let sortz l = List.sort (fun a b -> compare (int_of_z a) (int_of_z b)) l in
+  let rec go s ops views allowed ok =
+    match ops, views with
+    | op :: ops', (v, ba, r0, r1) :: views' ->
+      let allowed = allowed && op_allowed s op in
+      let s' = spec_step s op in
+      let m = { states = v; by_addr = ba; rtts = [] } in
+      let actors = List.map fst s' @ List.map fst v in
+      let ok = ok && List.for_all (fun a -> view_matches m s' a) actors
+               && ba_inv_b m
+               && zlist_eqb (sortz (ring0 m Z0)) (sortz r0)
+               && zlist_eqb (sortz (ring0 m (z_of_small 1))) (sortz r1) in
+      go s' ops' views' allowed ok
+    | [], [] -> (allowed, ok)
+    | _ -> (allowed, false)
+  in
+  let (allowed, ok) = go [] ops views true true in
+  "wf=" ^ sb allowed ^ " ok=" ^ sb ok
+
 (* ---------- dispatch ---------- *)
 let handlers : (string * (toks -> string)) list ref = ref [
   "chunks", c08_chunks;
@@ -217,6 +280,8 @@ let handlers : (string * (toks -> string)) list ref = ref [
   "chk_bstate", c02_chk_state;
   "needs", c04_needs;
   "chk_needs", c04_chk;
+  "members", c18_members;
+  "chk_members", c18_chk;
 ]
 
 let () =
